@@ -318,6 +318,10 @@ func demangleSingleFunction(fn *profile.Function, options []demangle.Option) {
 				name = removeMatching(name, '<', '>')
 			}
 		}
+		if name == "" {
+			// Nothing but parameter lists: keep the name as it is.
+			name = fn.SystemName
+		}
 	}
 	fn.Name = name
 }
